@@ -495,11 +495,12 @@ def en_passant_by_value(F, fn, body, sym, call):
             v = hir.fold(v, a, D, hir.table_helpers(F), ev)
             g = hir.fold(hir.fold(gterm, a, D, hir.table_helpers(F), ev), a, D, hir.table_helpers(F), ev)
             valid = len(txt) == 2 and txt[0] in "abcdefgh" and txt[1] == rank
+            g_false = g == ("lit", False) or hir.all_leaves_false(g)
             if valid:
-                if v != ("lit", ord(txt[0]) - 97) or g == ("lit", False):
+                if v != ("lit", ord(txt[0]) - 97) or g_false:
                     bad.append((side, txt, "column %s" % hir.fmt(v, 60)))
             else:
-                rejected = (isinstance(v, tuple) and v[:1] == ("ret",) and "Err" in hir.fmt(v, 200)) or g == ("lit", False) or \
+                rejected = (isinstance(v, tuple) and v[:1] == ("ret",) and "Err" in hir.fmt(v, 200)) or g_false or \
                     (isinstance(g, tuple) and g[:1] == ("ret",) and "Err" in hir.fmt(g, 200))
                 if not rejected:
                     bad.append((side, txt, "accepted as %s" % hir.fmt(v, 60)))
@@ -612,6 +613,33 @@ def w6(ctx, F):
     kings = [l for l in lets if hir.fmt(sym(l["init"]), 60) in ("white_king_pos", "black_king_pos")]
     ctx.check("C17.W6", "four-required-fields", len(fields) >= 4 and all(hir.diverges(l["els"]) for l in fields), fn=NEW, file=fn["file"],
               what="board, side, castling and en-passant fields must each be required", expected=4, found=len(fields))
+    # ... and what is remembered as a king's square is the square of a king of that colour (by cases on the piece just read)
+    bad = []
+    n_k = 0
+    for n, anc in hir.walk(body):
+        if n.get("k") == "Assign" and hir.strip(n["l"]).get("k") == "Path" and str(hir.strip(n["l"])["to"].get("name", "")).split("'")[0] in ("white_king_pos", "black_king_pos") \
+                and any(a_.get("k") == "Loop" for a_ in anc):
+            n_k += 1
+            who = "White" if "white" in hir.strip(n["l"])["to"]["name"] else "Black"
+            v = sym(n["r"])
+            if not (v[:1] == ("ctor",) and str(v[1]).endswith("::Some")):
+                bad.append((who, "stores %s" % hir.fmt(v, 40)))
+            term = hir.guards_term([g_ for g_ in (hir.guards_of(n, body, sym) or [])])
+            pcs = {t_ for t_ in hir.subterms(term) if isinstance(t_, tuple) and t_[:1] == ("field",) and t_[2] in ("piece_type", "owner") and len(t_) == 3}
+            bases = {t_[1] for t_ in pcs}
+            if len(bases) != 1:
+                continue
+            b_ = next(iter(bases))
+            for owner in ("White", "Black"):
+                for kind in ("King", "Queen", "Rook", "Pawn"):
+                    a = {("field", b_, "owner"): ("variant", "chess::Player::" + owner), ("field", b_, "piece_type"): ("variant", "chess::piece::PieceType::" + kind)}
+                    r_ = hir.fold(term, a)
+                    reached = not (r_ == ("lit", False) or hir.all_leaves_false(r_))
+                    if reached != (kind == "King" and owner == who):
+                        bad.append((who, "%s %s -> %s" % (owner, kind, "recorded" if reached else "not recorded")))
+    if n_k:
+        ctx.check("C17.W6", "king-squares-recorded-for-kings-only", not bad, fn=NEW, file=fn["file"],
+                  what="the importer remembers a king's square for a piece that is not that side's king, or not for the king", found=bad[:4])
     ctx.check("C17.W6", "both-kings-required", len(kings) == 2, fn=NEW, file=fn["file"],
               what="a position without one of the kings must be refused (the king cache would be undefined)", found=len(kings))
     # result type is a Result and no unwrap/expect/panic syntax in the importer itself
